@@ -850,9 +850,9 @@ class Association(threading.Thread):
                 context_id=req._context_id,
             )
         except ValueError:
-            # SOP Class not supported, no context ID?
+            # SOP Class not supported under the request's context
             rsp.Status = 0x0122
-            self.dimse.send_msg(rsp, 1)
+            self.dimse.send_msg(rsp, cast(int, req._context_id))
             return
 
         # Attempt to handle the service request
